@@ -60,7 +60,10 @@ RULE = ('cases: list4/list5 = one list from the Coq encoder (address size 4/8 x 
         'iter_location_lists / iter_range_lists (both generations), LocationLists.iter_CUs, RangeLists.iter_CUs, '
         'iter_CU_range_lists_ex, each with 0..2 such calls after each of the first 0..6 yields, or (enumerations that '
         'seek to every list: iter_range_lists, pre-v5 iter_location_lists) a fetch of a DIFFERENT list of the same '
-        'section through the same object after each yield; 60 of them on DWARF 2-4 files with 2.. lists back to back; malformed = truncations and unknown kinds (model vs '
+        'section through the same object after each yield; 60 of them on DWARF 2-4 files with 2.. lists back to back; '
+        'tail sharing = 40 files + 40 sessions where attributes (sec_offset/data4/data8) and offset-table slots '
+        '(loclistx/rnglistx) designate the 2nd.. entry of another list, in all four section kinds; long = pre-v5 '
+        'lists of 129/130/257/1000 entries (quick: one size per address size x byte order); malformed = truncations and unknown kinds (model vs '
         'implementation only). distinct = hash(kind, abstract); non-trivial = at least one list entry or one '
         'in-domain classification')
 
